@@ -88,6 +88,10 @@ func (b *Broker) send(ctx context.Context, id string, responder chan map[string]
 		return false
 	}
 	responder <- result
+	// the heartbeat outlives the request that triggers it: a request context (net/http's, the
+	// mock transport's) ends as soon as the reply has been delivered, and the client would be
+	// taken offline at once although it polls again immediately
+	ctx = context.Background()
 	go b.doHeartBeat(ctx, id)
 	return true
 }
